@@ -683,3 +683,33 @@ def ty_of_value(v):
     if isinstance(v, VTuple):
         return TupleT(*[ty_of_value(x) for x in v.items])
     return None
+
+
+class FileObjT(Ty):
+    """an open file object given as a parameter: .read() returns its whole
+    (remaining) content, a fixed symbolic string (A-fileiter)"""
+
+    def __init__(self, binary=False):
+        self.binary = binary
+
+    def sort(self):
+        return z3.StringSort()
+
+    def fresh(self, ctx, name):
+        content = ctx.fresh_const(name + '.content', z3.StringSort())
+        v = VOpaque(_other('fileobj', content), 'other')
+        cv = VBytes(content) if self.binary else VStr(content)
+        rd = VFunc('file.read', lambda it, a, k, n: cv)
+        rd.bind = False
+        v.attrs = {'read': rd}
+        v.content = cv
+        return v
+
+    def wrap(self, t):
+        raise NotImplementedError
+
+    def encode(self, v, ctx=None):
+        return v.content.t
+
+    def __repr__(self):
+        return 'FileObjT'
